@@ -1593,3 +1593,27 @@ pub fn nth_dedent(i: u64) -> String {
     s.push('\n');
     s
 }
+
+/// Special scalars in key and value position (merge keys, the value key, nulls, booleans,
+/// numbers in every base, timestamps) around small collections and aliases: features that a
+/// loader keys on the TEXT of a scalar.
+pub const SPECIAL_KEYS: [&str; 22] = [
+    "<<", "=", "~", "null", "Null", "true", "No", ".nan", "-.inf", "0o17", "0x1F", "+1", "1_000", "1e3", "2001-12-14", "!!merge <<", "\"<<\"", "? <<", "*b", "[<<]", "&k <<", "",
+];
+pub const SPECIAL_VALUES: [&str; 16] = [
+    "*b", "[*b, 2]", "[oops, *b]", "[[]]", "[*b, *c]", "{x: 2}", "[]", "{}", "1", "~", "<<", "[<<, *b]", "{<<: *b}", "!!merge *b", "&m {<<: *b}", "",
+];
+pub fn special_key_count() -> u64 {
+    (SPECIAL_KEYS.len() * SPECIAL_VALUES.len() * 3) as u64
+}
+pub fn nth_special_key(i: u64) -> String {
+    let v = SPECIAL_VALUES[(i % SPECIAL_VALUES.len() as u64) as usize];
+    let i = i / SPECIAL_VALUES.len() as u64;
+    let k = SPECIAL_KEYS[(i % SPECIAL_KEYS.len() as u64) as usize];
+    let pre = "b: &b {x: 1, y: [1]}\nc: &c {z: 3}\n";
+    match (i / SPECIAL_KEYS.len() as u64) % 3 {
+        0 => format!("{pre}m:\n  {k}: {v}\n  x: 9\n"),
+        1 => format!("{pre}m: {{{k}: {v}, x: 9}}\n"),
+        _ => format!("{pre}m:\n  - {k}: {v}\n    x: 9\n  - [{k}, {v}]\n"),
+    }
+}
